@@ -307,7 +307,7 @@ Fixpoint latest_ckpt (max_to : N) (best : option frame) (fs : list frame) : opti
 Definition latest_ckpt_truth (max_to : N) (l : log) : option frame := latest_ckpt max_to None l.
 
 (* the `.comp.v1.jsonl` sidecar: used as found when it exists, else built from the full sidecar's
-   checkpoint lines (no file when there is none); one backward scan, `complete` is not consulted *)
+   checkpoint lines (no file when there is none); one backward scan, which must be complete *)
 Definition comp_projection (fs : list frame) : list line := map LGood (filter is_checkpoint fs).
 Inductive ckres := CkNone | CkErr | CkSome (f : option frame).
 Definition header_project (ls : list line) : option (list line) :=    (* None = a line failed to parse *)
@@ -329,7 +329,7 @@ Definition latest_ckpt_cache (bmax_events bmax_bytes : N) (comp full : sfile) (m
   | Some None => CkNone
   | Some (Some ls) =>
     match scan_back bmax_events bmax_bytes ls with
-    | STail fs_rev _ => CkSome (latest_ckpt max_to None fs_rev)
+    | STail fs_rev cpl => if cpl then CkSome (latest_ckpt max_to None fs_rev) else CkErr   (* /repo c5f41f6 *)
     | _ => CkErr
     end
   end.
